@@ -74,6 +74,24 @@ def streams(tier, rng):
         c = gen.scenario(256, 8, [(1, b'Q?', ';'.join(ops))], [('I', b'Q?\n')])
         scases.append(c)
         sinfo[c] = (n, sent, complete, refused)
+    # data after a block that was completed in one call (or after a binary array) is beyond the announced length too
+    for _ in range(300 if tier == 'quick' else 5000):
+        n = rng.choice([0, 1, 2, 5, 16])
+        d = bytes(rng.getrandbits(8) for _ in range(n))
+        extra = bytes(rng.getrandbits(8) for _ in range(rng.randint(1, max(1, n))))
+        if rng.random() < 0.5:
+            first, sent = ('RBLOCK:' + vf.hx(d)) if d else 'RBLOCK', d
+        else:
+            size, fmt = rng.choice([1, 2, 4, 8]), rng.choice([1, 2])
+            k = rng.randint(0, 3)
+            raw = bytes(rng.getrandbits(8) for _ in range(size * k))
+            first = 'RARR:%d:%d:%s' % (size, fmt, raw.hex() or '-')
+            vals = [int.from_bytes(raw[i * size:(i + 1) * size], 'little') for i in range(k)]
+            sent = b''.join(v.to_bytes(size, 'big' if fmt == 1 else 'little') for v in vals)
+        ops = [first, 'RDATA:' + vf.hx(extra), 'RI32:7']
+        c = gen.scenario(256, 8, [(1, b'Q?', ';'.join(ops))], [('I', b'Q?\n')])
+        scases.append(c)
+        sinfo[c] = (len(sent), sent, True, True)
     for n in [10 ** k for k in range(0, 10)] + [10 ** 9 - 1, 4294967295, 999, 12345678]:
         c = gen.scenario(256, 8, [(1, b'Q?', 'RHDR:%d' % n)], [('I', b'Q?\n')])
         scases.append(c)
